@@ -9,6 +9,43 @@ IDS = ["#x0", "#x1", "#x2", "#x3", 9001, 9002, 0, ""]
 KINDS = ["k0", "k1", "k2", ""]  # the empty string is a legal kind
 
 
+_MAGIC = None
+
+
+def magic_strings():
+    """String literals harvested from the code under test (short ones): values
+    like a sentinel tag or a reserved key are exactly what random alphabets
+    never produce.  Sorted, so the list is a pure function of the sources."""
+    global _MAGIC
+    if _MAGIC is not None:
+        return _MAGIC
+    import ast
+    import glob
+    import os
+
+    repo = os.environ.get("VERIF_REPO", "/repo")
+    found = set()
+    for path in sorted(glob.glob(os.path.join(repo, "nutree", "*.py"))):
+        try:
+            tree = ast.parse(open(path, encoding="utf8").read())
+        except (OSError, SyntaxError):
+            continue
+        for node in ast.walk(tree):
+            if isinstance(node, ast.Constant) and isinstance(node.value, str):
+                v = node.value
+                if 1 <= len(v) <= 12 and "\n" not in v and "{" not in v and v.isprintable():
+                    found.add(v)
+    _MAGIC = sorted(found)
+    return _MAGIC
+
+
+def reserved_looking(ms):
+    """Sentinel / reserved looking literals: <tag>, __dunder__, $key."""
+    import re
+
+    return [m for m in ms if re.match(r"^(<[^<>]+>|__\w+__|\$\w+)$", m)]
+
+
 # ------------------------------------------------------------------------------
 # configuration
 # ------------------------------------------------------------------------------
@@ -58,6 +95,11 @@ def draw_cfg(rng, prop: str, tier: str, overrides=None) -> dict:
     cfg["labels"] = list(LABELS[:n_labels])
     if rng.random() < 0.25:
         cfg["labels"] += LABELS[8:]  # non-ASCII labels (file encoding, zip members)
+    if rng.random() < 0.15:
+        ms = magic_strings()
+        if ms:
+            # literals of the code under test: all sentinel-looking ones + a few others
+            cfg["labels"] += reserved_looking(ms) + rng.sample(ms, min(2, len(ms)))
     if primary in ("hook", "thook"):
         # case variants are clones under the case-insensitive id callback
         cfg["labels"] = cfg["labels"][:3] + [c.upper() for c in cfg["labels"][:2]]
@@ -69,6 +111,12 @@ def draw_cfg(rng, prop: str, tier: str, overrides=None) -> dict:
         flav = ["f"]  # the FileSystemTree mappers only know FileSystemEntry data
     cfg["flavours"] = flav
     cfg["ids"] = rng.sample(IDS, rng.choice([0, 2, 3, 4]))
+    if cfg["ids"] and rng.random() < 0.2:
+        ms = magic_strings()
+        if ms:
+            cfg["ids"] += reserved_looking(ms) + rng.sample(ms, 1)  # reserved-looking ids
+    # label and id alphabets stay disjoint: tree[key] resolves ids before data (C09)
+    cfg["ids"] = [i for i in cfg["ids"] if i not in cfg["labels"]]
     cfg["p_explicit_id"] = rng.choice([0.0, 0.1, 0.3]) if cfg["ids"] else 0.0
     cfg["kinds"] = rng.sample(KINDS, rng.choice([1, 2, 3]))
     cfg["p_reuse"] = rng.choice([0.1, 0.3, 0.5])
@@ -119,7 +167,8 @@ def _keys_of_flavour(f, cfg):
     if f == "s":
         return ["s:" + c for c in cfg["labels"]]
     if f == "i":
-        return ["i:1", "i:2", "i:3", "i:0"]  # 0: a falsy but perfectly valid data object
+        # 0: falsy but valid data; 2**61-1 and 2**61: ints whose hash differs from their value
+        return ["i:1", "i:2", "i:3", "i:0", "i:2305843009213693951", "i:2305843009213693952"]
     if f == "t":
         return ["t:1#0", "t:1#1", "t:2#0"]
     if f == "d":
@@ -164,7 +213,9 @@ def pick_parent(rng, w: World, si: int, shape=None) -> MNode:
     mt = w.slots[si].model
     ns = mt.nodes()
     if ns and shape == "deep" and rng.random() < 0.8:
-        return ns[-1] if rng.random() < 0.5 else max(ns, key=lambda n: n.depth())
+        cand = ns[-1] if rng.random() < 0.5 else max(ns, key=lambda n: n.depth())
+        if cand.depth() < 150:  # observers recurse; stay far below the interpreter limit
+            return cand
     if ns and shape == "wide" and rng.random() < 0.8:
         return ns[0] if rng.random() < 0.6 else mt.root
     if not ns or rng.random() < 0.25:
@@ -639,8 +690,12 @@ def gen_restart(rng, cfg, w: World, opid, invalid, steer):
             op["compression"] = c
     if rng.random() < 0.4:
         op["meta"] = {"foo": "bar", "n": opid}
+        if rng.random() < 0.4:
+            op["meta"]["$schema"] = "user"  # user metadata may use any key
     if rng.random() < 0.3:
         op["no_mapper"] = True
+    if op["key_map"] == "off" and rng.random() < 0.5:
+        op["user_keys"] = True
     return op
 
 
